@@ -31,14 +31,21 @@ Proof.
             match del_end with
             | None => Ok (Z.of_nat si, Z.of_nat sj)
             | Some d => match check_handle s d with
-                        | Ok (hb, hi) => Ok (b_index (bget (s_heap s) hb), hi + 1)
+                        | Ok (hb, hi) =>
+                          if pair_lt (b_index (bget (s_heap s) hb), hi) (Z.of_nat si, Z.of_nat sj) then Err ValueError
+                          else Ok (b_index (bget (s_heap s) hb), hi + 1)
                         | Err e => Err e end
             end = Ok (Z.of_nat ei, Z.of_nat ej)) as (ei & be & ej & Hbe & Lej & Eq & Een).
   { destruct del_end as [d|]; cbn in Hq.
     - destruct Hq as [Lpq Hd]. destruct (locate_inv s (q - 1) d I Hd) as (i & b & j & Hb & Ht & Ek & Hh & Hi).
       pose proof (nth_error_in_len _ _ _ Ht) as Lj.
+      assert (si < i \/ (si = i /\ sj <= S j))%nat as Hord.
+      { apply (order_of_lt (toks s) (s_blocks s) si bs sj i b (S j)); auto. lia. }
       exists i, b, (S j). split; [exact Hb|]. split; [lia|]. split; [lia|].
-      rewrite check_handle_hnd, Hh. fold (bidx s b). rewrite Hi. do 2 f_equal. lia.
+      rewrite check_handle_hnd, Hh. fold (bidx s b). rewrite Hi.
+      assert (pair_lt (Z.of_nat i, Z.of_nat j) (Z.of_nat si, Z.of_nat sj) = false) as ->.
+      { apply end_not_before_start. destruct Hord as [G|[G1 G2]]; [left; exact G|right; split; [exact G1|]]. subst i. lia. }
+      do 2 f_equal. lia.
     - exists si, bs, sj. split; [exact Hbs|]. split; [exact Lsj|]. split; [lia|reflexivity]. }
   exists si, bs, sj, ei, be, ej. repeat (split; [assumption|]). unfold splice. rewrite Est, Een. reflexivity.
 Qed.
@@ -177,9 +184,9 @@ Proof.
   - rewrite check_handle_hnd, H. reflexivity.
 Qed.
 
-(* a reversed range (del_end strictly before the predecessor of ref) is refused *)
-Theorem splice_reversed_refused LF s tokens r e p kd :
-  Inv s -> nth_error (abs s) p = Some r -> nth_error (abs s) kd = Some e -> (kd + 1 < p)%nat ->
+(* a reversed range (del_end anywhere before ref, also directly before it) is refused: by splice() itself *)
+Theorem splice_reversed_refused_all LF s tokens r e p kd :
+  Inv s -> nth_error (abs s) p = Some r -> nth_error (abs s) kd = Some e -> (kd < p)%nat ->
   splice LF s tokens (Some r) (Some e) = (s, Err ValueError).
 Proof.
   intros [I _] Hr He Lt.
@@ -187,12 +194,18 @@ Proof.
   destruct (locate_inv s kd e I He) as (i' & b' & j' & Hb' & Htj' & Ek' & Hh' & Hi').
   pose proof (nth_error_in_len _ _ _ Htj) as Lj. pose proof (nth_error_in_len _ _ _ Htj') as Lj'.
   unfold splice. rewrite !check_handle_hnd, Hh, Hh'. fold (bidx s b) (bidx s b'). rewrite Hi, Hi'.
-  apply splice__refuses_reversed. unfold pair_lt. cbn [fst snd].
+  assert (pair_lt (Z.of_nat i', Z.of_nat j') (Z.of_nat i, Z.of_nat j) = true) as ->; [|reflexivity].
+  unfold pair_lt. cbn [fst snd].
   assert (~ (i < i')%nat) as N.
   { intro G. pose proof (flat_firstn_mono (toks s) (s_blocks s) (S i) i' G) as M.
     rewrite (flat_firstn_S _ _ i b Hb), app_length in M. lia. }
   destruct (Nat.lt_trichotomy i' i) as [?|[->|?]]; [lia|lia|contradiction].
 Qed.
+
+Theorem splice_reversed_refused LF s tokens r e p kd :
+  Inv s -> nth_error (abs s) p = Some r -> nth_error (abs s) kd = Some e -> (kd + 1 < p)%nat ->
+  splice LF s tokens (Some r) (Some e) = (s, Err ValueError).
+Proof. intros II Hr He Lt. apply (splice_reversed_refused_all LF s tokens r e p kd II Hr He). lia. Qed.
 
 (* insert_after never takes a token that is in this store or in another one *)
 Theorem insert_after_refuses LF s tokens ref p t :
